@@ -18,6 +18,10 @@ R28g a snapshot belongs to the run: every TagsUpdatedMsg the engine builds gets 
      of a tag-update builder in EngineRunner passes the runner's run id - the steady-state snapshot takes the pending updates off the
      queue, and the aggregator skips a message without run id while a run is active (and still answers success).
 Decides the restore/store structure; message arrival order is outside static reach.
+R28h what waits for the log interval is stored before the memory is given up: FromEngine.engine_disconnected reaches the removal of the
+     engine data only through `_persist_tag_values(.., flush=True)`, and Aggregator.shutdown calls it for every engine - values
+     accepted since the last interval exist in EngineData.tags_info only, the restore after a reconnect brings back the newest stored
+     tick time, and the engine's snapshot cannot re-deliver them (a tag's tick time is its last change, which is not newer).
 """
 from __future__ import annotations
 
@@ -154,6 +158,7 @@ def restore_rules(ctx, RULE: str) -> None:
 
 
 def run(ctx) -> None:
+    _r28h(ctx)
     prog = ctx.prog
     for r, d in [("R28a", "restore on register"), ("R28b", "store before delete on disconnect"),
                  ("R28c", "shutdown stores every engine"), ("R28d", "store_recent_engine run fields"),
@@ -297,3 +302,40 @@ def run(ctx) -> None:
                     ctx.fail("R28g", m, c, inst, "the builder is called without the runner's run id: the message goes out with run_id=None")
     if n_calls < 3:
         raise AnchorError(f"only {n_calls} tag-update builder calls found in EngineRunner (floor 3)")
+
+
+
+def _r28h(ctx) -> None:
+    import ast as _ast
+    from ..util import cfg_of as _cfg, call_attr as _ca
+    from ..model import norm as _norm, AnchorError as _AE
+    prog = ctx.prog
+    ctx.rule("R28h", "pending tag values are flushed when a session ends")
+    ed = prog.func("openpectus.aggregator.aggregator:FromEngine.engine_disconnected")
+    ctx.analysed(ed)
+    g = _cfg(ed)
+
+    def _flush(n) -> bool:
+        return any(_ca(c) == "_persist_tag_values" and any(k.arg == "flush" and isinstance(k.value, _ast.Constant) and k.value.value is True
+                                                             for k in c.keywords) for c in n.calls())
+    dels = [n for n in g.nodes if n.kind == "stmt" and isinstance(n.ast, _ast.Delete) and "_engine_data_map" in _norm(n.ast)]
+    if not dels:
+        raise _AE("engine_disconnected: removal of the engine data not found")
+    inst = "engine_disconnected: the engine data is removed only after the pending values were flushed"
+    pth = g.search(None, lambda n: any(n.id == d.id for d in dels), blocked=_flush, follow_exc=False)
+    if pth is None:
+        ctx.ok("R28h", inst)
+    else:
+        ctx.fail("R28h", ed, dels[0].ast, inst, "tag values accepted since the last log interval live in EngineData.tags_info only; it is dropped "
+                 "here unsaved: with a 5 s interval X=1@100 is stored, X=2@102 waits, the engine reconnects - the plot log of the "
+                 "continued run keeps X=[(100, 1)] for the rest of the run, the snapshot after the reconnect is rejected as not newer", pth)
+    sd = prog.func("openpectus.aggregator.aggregator:Aggregator.shutdown")
+    ctx.analysed(sd)
+    inst = "Aggregator.shutdown flushes the pending values of every engine"
+    loops = [x for x in _ast.walk(sd.node) if isinstance(x, _ast.For) and "_engine_data_map" in _norm(x.iter)]
+    ok = any(any(isinstance(c, _ast.Call) and _ca(c) == "_persist_tag_values" and any(k.arg == "flush" for k in c.keywords)
+                 for c in _ast.walk(lp)) for lp in loops)
+    if ok:
+        ctx.ok("R28h", inst)
+    else:
+        ctx.fail("R28h", sd, sd.node, inst, "a graceful restart of the aggregator drops the values that wait for the log interval")
